@@ -138,6 +138,11 @@ class Gen:
             n = {"k": "step", "script": [{"do": "fail", "cls": cls, "msg": "m%d" % rng.randrange(10)}], "sem": sem,
                  "retry": rng.choice([{"kind": "preset", "name": "none"}, {"decisions": [("stop",)]}])}
             return {"k": "try", "body": n, "catch": rng.choice(["*", ["CallableRuntimeError"], ["Exception"]])}
+        if k == "fwfc":  # wait_for_condition whose check raises, caught by try
+            n = {"k": "wfc", "init": rng.randrange(5), "decisions": [("cont", 1), ("stop",)],
+                 "checks": rng.choice([[{"do": "fail", "cls": "UserErr", "msg": "c%d" % rng.randrange(9)}],
+                                       [{"do": "ok"}, {"do": "fail", "cls": "ValueError", "msg": "late"}]])}
+            return {"k": "try", "body": n, "catch": rng.choice(["*", ["UserErr"], ["CallableRuntimeError"], ["ValueError", "UserErr"]])}
         if k == "rstep":  # fails j times then succeeds
             j = rng.randrange(1, 3)
             script = [{"do": "fail", "cls": "ValueError", "msg": "try%d" % i} for i in range(j)] + [{"do": "ok", "val": gen_value(rng)}]
@@ -178,12 +183,15 @@ class Gen:
         raise AssertionError(k)
 
 
-def default_world(prog: dict, rng: random.Random) -> dict:
-    """World script: how external parties answer callbacks and invokes."""
+def default_world(prog: dict, rng: random.Random, det: bool = False) -> dict:
+    """World script: how external parties answer callbacks and invokes.
+    det=True: externals inside map/parallel branches always succeed (keeps BatchResults schedule-independent)."""
     comp = {}
     for path, n in walk(prog["body"]):
         if n["k"] in ("cb", "wfcb", "invoke"):
             st = rng.choice(["SUCCEEDED"] * 4 + ["FAILED"])
+            if det and "/b" in path:
+                st = "SUCCEEDED"
             if n["k"] == "invoke":
                 res = '{"r": %d}' % rng.randrange(100)
             else:
